@@ -167,6 +167,10 @@ class NativeSlave:
     def idle(self):
         return not self.q and not self.pendw and not self.pendr
 
+    def writes_handed(self):
+        """write-data beats taken from the device so far"""
+        return sum(1 for e in self.log if e[0] == "W")
+
     def cycle(self, sim, t):
         get = sim.get
         w = []
@@ -246,6 +250,7 @@ class NativeFifoSlave:
 
     def __init__(self, ports, *, ready_pattern=None, wlat=None, rlat=None, qmax=8, init=None, bg=None, apply_lost=False,
                  wdepth=4, rdepth=4, wready_pattern=None):
+        # (init: initial memory contents, as for NativeSlave)
         self.ports = list(ports)
         self.ready = [schedule_iter(ready_pattern) for _ in self.ports]
         self.wready = [schedule_iter(wready_pattern) for _ in self.ports]
@@ -273,6 +278,10 @@ class NativeFifoSlave:
 
     def idle(self):
         return not self.q and not any(self.rq)
+
+    def writes_handed(self):
+        """write-data beats taken from the device so far (performed or still queued)"""
+        return sum(1 for e in self.log if e[0] == "W") + sum(len(x) for x in self.wq)
 
     def orphan_beats(self):
         """write-data beats queued although no write command is queued: legal only transiently (data may lead its command)"""
